@@ -1,11 +1,12 @@
 package s0304
 
 type G1 struct {
-	F2x0 *uint32
+	F1x0 *int64
 }
 
 type T struct {
-	F0 *int32
-	F1 int64
-	F2 *G1
+	F0 int32
+	F1 *G1
+	F2 *uint32
+	F3 uint64
 }
